@@ -57,6 +57,7 @@ struct Config {
   int max_violations = 8;   // distinct violation signatures to keep
   bool stop_on_violation = false;
   uint64_t max_execs = ~0ULL;
+  int max_abandoned = 400;  // stuck executions (deadlock/crash) tolerated before the search of a program stops
 };
 
 struct Violation {
@@ -76,6 +77,7 @@ struct Result {
   uint64_t pruned = 0;         // executions whose tail was covered by the cache
   uint64_t blocked_execs = 0;  // executions in which some thread had to wait
   uint64_t max_trace = 0;
+  uint64_t abandoned = 0;      // executions stopped by a deadlock / crash / horizon (their threads are leaked)
   int bound_completed = -2;    // largest bound fully explored (-1: unbounded completed)
   bool exhaustive = false;     // requested bound(s) completed
   std::vector<std::string> outcomes;
